@@ -116,6 +116,18 @@ func init() {
 
 func init() {
 	Registry["C08"] = func(c *Ctx) (int, error) {
+		// error propagation is emitted by templates that differ per option set (private make functions, pointer receivers,
+		// unsafe readers): faults also under option sets
+		opts := &WireSpec{GenModule: "Gen_Wire", GenConsts: map[string]string{"OptMode": `"cover"`, "ValMode": `"few"`, "Muts": `"none"`}, GenInvs: []string{"Export"},
+			Op: "faults", Errs: []string{"boom", "eof"}, JudgeProp: "C08", DevProps: []string{"C08"}, Level: "model_checking",
+			Rule: "every reader and writer fault position on the first three values of a seed-rotating third of the schemas, generated under all five options and under a second seed-chosen option set of the pairwise cover",
+			CaseFilter: func(s *wireSchema, cs *wireCase) bool {
+				if len(cs.Enc) > 120 || (cs.Sid+c.Seed)%3 != 0 {
+					return false
+				}
+				return cs.Mask == 31 || cs.Mask == []int{7, 25, 10, 21, 14, 19, 28, 3}[(cs.Sid/3+c.Seed)%8]
+			},
+			Nontrivial: func(s *wireSchema, cs *wireCase) bool { return len(cs.Enc) > 2 }}
 		evolve := &WireSpec{GenModule: "Gen_Evolve", GenInvs: []string{"IsExtension", "ForwardCompat", "Export"},
 			Op: "rfault", Errs: []string{"boom", "unexpected"}, JudgeProp: "C08", DevProps: []string{"C08"}, Level: "model_checking",
 			Rule:       "reader failing at every byte offset while the OLDER schema version decodes a NEWER version's bytes (the path that skips unknown message fields), over the schema pairs of C04",
@@ -125,7 +137,7 @@ func init() {
 			Rule:       "cases = TLC-enumerated (shape x context x value); reader: for EVERY byte offset k < len the reader fails after k bytes with {custom error, io.EOF, io.ErrUnexpectedEOF} in the styles error-after-last-byte / error-with-last-bytes / one-byte-reads; writer: for EVERY call index k below the number of Write calls of a fault-free run the k-th Write fails (writing nothing / half); non-trivial if the encoding has more than 2 bytes",
 			Assume:     wireAssume,
 			CaseFilter: func(s *wireSchema, cs *wireCase) bool { return len(cs.Enc) <= 400 },
-			Nontrivial: func(s *wireSchema, cs *wireCase) bool { return len(cs.Enc) > 2 }}, evolve})
+			Nontrivial: func(s *wireSchema, cs *wireCase) bool { return len(cs.Enc) > 2 }}, evolve, opts})
 	}
 }
 
